@@ -217,3 +217,43 @@ Print Assumptions C01_preprocess_sublist.
 Theorem C01_text_view_sublist : forall k t, subseq (text_view k t) t.
 Proof. exact text_view_subseq. Qed.
 Print Assumptions C01_text_view_sublist.
+
+(* ---- static text through the parser (Model/Parser.v, for every table of expressions) ---- *)
+From DT Require Import Model.Regex Model.ParserRe Model.ParserSkel Model.Parser Proofs.ParserModelProofs.
+
+(* a cleaned source without any tag is one raw node carrying exactly its bytes (none if empty) *)
+Theorem C01_source_without_tags_is_one_raw_node : forall (T : retab) (E : penv) s,
+  find2 "{"%byte "%"%byte s = None ->
+  parse_clean T E s = POk (match s with [] => [] | _ => [NRaw s] end).
+Proof. exact parse_static_text. Qed.
+Print Assumptions C01_source_without_tags_is_one_raw_node.
+
+(* a template without block tags becomes, node for node and in the order of the source, its
+   pieces: every stretch of static text as a raw node with exactly its bytes, every tag as the
+   node that tag stands for *)
+Theorem C01_flat_template_keeps_order : forall (T : retab) (E : penv) s toks,
+  tokens s = Some toks -> Forall (is_flat T E) toks ->
+  parse_clean T E s = POk (map (flat_node T E) toks).
+Proof. exact parse_flat. Qed.
+Print Assumptions C01_flat_template_keeps_order.
+
+(* at every level of nesting a stretch of static text is appended to the nodes built so far as a
+   raw node with exactly its bytes, and nothing built before is touched *)
+Theorem C01_static_text_appended_unchanged : forall (T : retab) (E : penv) f t p s inp acc err p' rest out,
+  (negb (reached t p) || eq_zero t) = true ->
+  parse_nodes T E (S f) t p (TRawT s :: inp) acc = Some (err, p', rest, out) ->
+  exists more, out = acc ++ NRaw s :: more.
+Proof. exact parse_nodes_raw_kept. Qed.
+Print Assumptions C01_static_text_appended_unchanged.
+
+(* from source bytes to output bytes: a source without tags is accepted and renders as itself *)
+From DT Require Import Proofs.EndToEnd.
+Theorem C01_static_source_renders_itself : forall (T : retab) (E : penv) flits lookup budget inc s c w,
+  find2 "{"%byte "%"%byte s = None ->
+  w_fail w = None -> chJQ c = false -> chHE c = false -> chUE c = false ->
+  exists tree,
+    parse_clean T E s = POk tree /\
+    exists c' w', run_nodes flits lookup budget inc tree c w = Out c' w' None /\
+                  wr_bytes w' = wr_bytes w ++ s /\ w_fail w' = None.
+Proof. exact static_source_renders_itself. Qed.
+Print Assumptions C01_static_source_renders_itself.
